@@ -167,8 +167,11 @@ func VerifC16UserDict() {
 	users := make([]verifUser, k)
 	for i := range users {
 		u := verifUser{name: fmt.Sprintf("User%d", i), display: fmt.Sprintf("u%d", i)}
-		if vf.NondetIntRange("unnamed", 0, 1) == 1 {
+		switch vf.NondetIntRange("naming", 0, 2) {
+		case 1:
 			u.name = ""
+		case 2:
+			u.name = "User0" // a later entry re-using an earlier name (its own display stays)
 		}
 		e := vf.NondetIntRange("extends", 0, k+2)
 		switch {
@@ -209,8 +212,19 @@ func VerifC16UserDict() {
 
 	// what must be refused
 	bad := false
+	defined := func(name string) bool {
+		if name == "MinorTriad" {
+			return true
+		}
+		for _, x := range users {
+			if x.name != "" && x.name == name {
+				return true
+			}
+		}
+		return false
+	}
 	for _, u := range users {
-		if u.name == "" || (u.extends == "" && len(u.attrs) == 0) || u.extends == "NoSuchChord" {
+		if u.name == "" || (u.extends == "" && len(u.attrs) == 0) || (u.extends != "" && !defined(u.extends)) {
 			bad = true
 		}
 		for _, a := range u.attrs {
@@ -219,27 +233,41 @@ func VerifC16UserDict() {
 			}
 		}
 	}
-	// cycle among user chords
-	cyclic := false
+	// cycle among user chords. With a re-used name "extends N" can be read by name (N extends
+	// N is a cycle) or by resolution (N means the later definition): where the two readings
+	// disagree the outcome is a don't-care.
+	resolve := func(name string) int {
+		last := -1
+		for j := range users {
+			if users[j].name != "" && users[j].name == name {
+				last = j
+			}
+		}
+		return last
+	}
+	cyclic, cyclicByName := false, false
 	for i := range users {
 		cur, steps := i, 0
+		names := map[string]bool{users[i].name: true}
 		for steps <= k {
-			e := users[cur].extends
-			nxt := -1
-			for j := range users {
-				if users[j].name != "" && users[j].name == e {
-					nxt = j
-				}
-			}
+			nxt := resolve(users[cur].extends)
 			if nxt < 0 {
 				break
 			}
+			if names[users[nxt].name] {
+				cyclicByName = true
+			}
+			names[users[nxt].name] = true
 			cur = nxt
 			steps++
 		}
 		if steps > k {
 			cyclic = true
 		}
+	}
+	if cyclic != cyclicByName && !bad {
+		vf.Reach("dont-care-name-reuse")
+		return
 	}
 	if cyclic {
 		vf.Class("cyclic-extends")
@@ -285,10 +313,14 @@ func VerifC16UserDict() {
 			if x.extends == "MinorTriad" {
 				want = append(want, "Perfect1", "Minor3", "Perfect5")
 			} else if x.extends != "" {
+				last := -1
 				for p := range users {
-					if users[p].name == x.extends && depth < k+1 {
-						walk(p, depth+1)
+					if users[p].name == x.extends {
+						last = p // a later definition of a name wins
 					}
+				}
+				if last >= 0 && depth < k+1 {
+					walk(last, depth+1)
 				}
 			}
 			want = append(want, x.attrs...)
@@ -370,6 +402,52 @@ func VerifC16LookupHistory() {
 		for j := range results {
 			vf.Assert("earlier-answers-unchanged-by-later-lookups", verifSameNames(verifAttrNames(results[j]), verifRefNames(symbols[j], 0)))
 		}
+	}
+	vf.Reach("end")
+}
+
+// VerifC12BuildOrder: which definition a symbol resolves to does not depend on Go's map
+// iteration order, also when a user chord's display symbol collides with another chord's
+// symbol or name (later definitions win, every run).
+func VerifC12BuildOrder() {
+	users, perr := ParseChords([]byte("- name: Quartal\n  meta:\n    display: sus4\n  attributes: [Perfect1, Perfect4, Minor7]\n" +
+		"- name: m7\n  meta:\n    display: qm\n  attributes: [Perfect1, Perfect5]\n" +
+		"- name: Fresh\n  meta:\n    display: MinorTriad\n  attributes: [Perfect1]\n"))
+	vf.Assert("user-file-parses", perr == nil && len(users) == 3)
+	build := func() []string {
+		b := NewBuilder()
+		for _, a := range verifAttrs {
+			b.Attribute(a)
+		}
+		for _, c := range verifChords {
+			b.Chord(c)
+		}
+		for _, c := range users {
+			b.Chord(c)
+		}
+		m, err := b.Build()
+		if err != nil {
+			return []string{"error"}
+		}
+		var out []string
+		for _, sym := range []string{"sus4", "SuspendedFourth", "Quartal", "m7", "qm", "MinorSeventh", "MinorTriad", "m", "Fresh", "7sus4"} {
+			c, ok := m.GetChord(sym)
+			as, _ := m.GetChordAttributes(sym)
+			out = append(out, fmt.Sprintf("%s=%s/%v/%d", sym, c.Name, ok, len(as)))
+		}
+		return out
+	}
+	ref := build()
+	vf.Assert("later-definition-wins", ref[0] == "sus4=Quartal/true/3" && ref[3] == "m7=m7/true/2")
+	reps := 1
+	if vf.Native() {
+		reps = 40
+	}
+	for i := 0; i < reps; i++ {
+		vf.NondetMapOrder(true)
+		got := build()
+		vf.NondetMapOrder(false)
+		vf.Assert("dictionary-independent-of-map-order", verifSameNames(ref, got))
 	}
 	vf.Reach("end")
 }
